@@ -18,7 +18,10 @@ def main():
     from . import env
 
     env.setup()
+    from . import cover
     from .orchestrate import dumps
+
+    covering = os.environ.get("VT_COVER", "1") == "1" and cover.start(env.REPO)
 
     mod = importlib.import_module(f"vt.props.{prop.lower()}")
     for line in sys.stdin:
@@ -47,6 +50,9 @@ def main():
         res["case"] = spec.get("id")
         res["wall_s"] = round(time.time() - t0, 3)
         proto.write(dumps(res) + "\n")
+        proto.flush()
+    if covering:
+        proto.write(dumps({"_coverage": cover.snapshot()}) + "\n")
         proto.flush()
 
 
